@@ -82,11 +82,202 @@ def run(out, tier):
         except Unsupported as e:
             out.obligation("L2.sub_word_inside_word", "mirsmt", "inconclusive", 0, witness=False, note=str(e))
             out.inconc("L2: %s" % e)
+    # ---- L3 on the MIR: every mutator of the layout keeps it ordered ---------------------------------------------------
+    layout_mutators(out, eng)
+    packed_flattening(out, eng)
     # ---- L1 (+ which_power_of_2) with Kani ---------------------------------------------------------------------------
     names = L1 + ["pow2_exact_16", "pow2_rejects_16"] + (L1_THOROUGH + ["pow2_exact_64", "pow2_rejects_64"] if tier == "thorough" else [])
     out.bounds.append("which_power_of_2: 2^k -> Some(k) and 2^k + 2^j -> None for k < 16 (quick) / k < 64 (thorough); "
                       "the full 256-step loop did not finish under CBMC in 1800 s")
     kani.run_family(out, names + ["layout_twin"], expect_fail=["layout_twin"], tier=tier, timeout_s=150 if tier == "quick" else 1800)
+
+
+def layout_mutators(out, eng):
+    """L3: `slots` is private to src/layout.rs; every function there that receives the layout by `&mut` (found in the MIR
+    on every run) must leave the vector ordered by (index, offset), assuming it was ordered before: an insertion has to
+    be followed by a sort whose key closure returns exactly (slot.index, slot.offset)."""
+    import re
+    from mirsmt.interp import Cell, Lazy, Ref, UNIT
+    from mirsmt.summaries import obj_at, call_closure, load
+    from mirsmt.containers import mk_vec
+    muts = []
+    for n, f in eng.fns.items():
+        if "src/layout.rs" not in n or "::test" in n or not f.args:
+            continue
+        if re.match(r"^&mut (\w+::)*StorageLayout$", f.args[0][1].strip()):
+            muts.append(f)
+    out.functions.append("layout.rs: every fn taking `&mut StorageLayout` (%s)" % ", ".join(sorted(f.name.split("::")[-1] for f in muts)))
+    if not muts:
+        out.inconc("L3: no mutator of StorageLayout found in the MIR dump")
+        return
+
+    def vec_of(ctx, r):
+        v = obj_at(ctx, r, mk_vec)
+        return v if isinstance(v, Obj) and v.kind == "vec" else None
+
+    def push(ctx, a, ty, c):
+        v = vec_of(ctx, a[0])
+        if v is None:
+            return NotImplemented
+        v.pushed.append(a[1])
+        v.sorted = False
+        return UNIT
+
+    def unordered(ctx, a, ty, c):
+        v = vec_of(ctx, a[0])
+        if v is None:
+            return NotImplemented
+        v.sorted = False
+        return NotImplemented
+
+    def sort_by_key(ctx, a, ty, c):
+        v = vec_of(ctx, a[0])
+        if v is None:
+            return NotImplemented
+        probe = Cell(Lazy("layout::StorageSlot", "probe"), "probe")
+        k = call_closure(ctx, a[1], [Ref(probe, ())])
+        names = []
+        if isinstance(k, Agg):
+            for i in (0, 1):
+                x = k.fields.get(i)
+                x = load(ctx, x) if isinstance(x, Ref) else x
+                nm = getattr(x, "name", None)
+                if nm is None and hasattr(x, "e"):
+                    nm = str(x.e)
+                if nm is None and isinstance(x, Agg) and 0 in x.fields:
+                    inner = x.fields[0]
+                    nm = getattr(inner, "name", None) or (str(inner.e) if hasattr(inner, "e") else None)
+                names.append(nm)
+        ok_key = len(names) == 2 and str(names[0]).startswith("probe.0") and str(names[1]).startswith("probe.1") and len(k.fields) == 2
+        v.sorted = bool(ok_key)
+        if not ok_key:
+            v.sort_key = names
+        return UNIT
+    extra = [(r"^Vec::<.*StorageSlot>::push$", push), (r"^Vec::<.*StorageSlot>::(insert|extend|append|swap|reverse|truncate_front)", unordered),
+             (r"^(core|std|alloc)::slice::<impl \[.*\]>::(sort_by_key|sort_by_cached_key|sort_unstable_by_key)::<.*>$", sort_by_key)]
+    for f in muts:
+        short = f.name.split("::")[-1]
+        oid = "L3.layout_stays_ordered[%s]" % short
+        t0 = time.time()
+        ex = eng.explorer(extra=extra, havoc_unknown=True, max_visits=3, max_seconds=60)
+
+        def body(ctx, f=f):
+            lay = Cell(Lazy("layout::StorageLayout", "layout"), "layout")
+            args = [Ref(lay, (), True)] + [Lazy(t, "arg%d" % i) for i, (_, t) in enumerate(f.args[1:])]
+            r = ctx.run_fn(f, args)
+            return r, lay, ctx
+        try:
+            paths = ex.explore(body)
+        except Unsupported as e:
+            out.obligation(oid, "mirsmt", "inconclusive", time.time() - t0, witness=False, note=str(e))
+            out.inconc("%s: %s" % (oid, e))
+            continue
+        bad, seen = None, 0
+        for p in paths:
+            if p.kind != "return":
+                continue
+            seen += 1
+            lay = p.ret[1].v
+            v = lay.fields.get(0) if isinstance(lay, Agg) else None
+            if isinstance(v, Obj) and v.kind == "vec" and not getattr(v, "sorted", True):
+                key = getattr(v, "sort_key", None)
+                bad = ("`%s` changes the slot vector and returns without sorting it by (index, offset)" % short) if key is None else \
+                      ("`%s` sorts the slot vector by %s, not by (index, offset)" % (short, key))
+        dt = time.time() - t0
+        if bad is None and seen:
+            out.obligation(oid, "mirsmt", "holds", dt, witness=True, paths=seen,
+                           note="from an ordered layout, every returning path leaves `slots` ordered by (index, offset)")
+        elif bad is None:
+            out.obligation(oid, "mirsmt", "vacuous", dt, witness=False)
+            out.inconc("%s: no returning path" % oid)
+        else:
+            confirmed, rep = native.scenario(out, "layout_family_sorted", {})
+            if confirmed:
+                out.obligation(oid, "mirsmt", "violated", dt, witness=True, note=bad, replay=rep)
+                out.violation(C.Violation(key="layout-mutator-breaks-order:%s" % short, what="%s: %s" % (oid, bad), replay={"engine": "mirsmt", "native": rep}))
+            else:
+                out.obligation(oid, "mirsmt", "cex-not-reproduced", dt, witness=False, note=bad, replay=rep)
+                out.inconc("%s: %s (no unordered layout observed natively: %s)" % (oid, bad, str(rep)[:200]))
+
+
+def packed_flattening(out, eng):
+    """L4: where abi_type_for_impl flattens a nested packed type it maps every nested entry (type, position) through a
+    closure; L2 guarantees that positions are bit positions inside the 256-bit word, at every nesting level.  Decided: for
+    every parent span offset and nested position inside the word, the flattened position is inside the word too."""
+    import re
+    from mirsmt.interp import Cell, Int, Lazy, Ref
+    cands = [f for n, f in eng.fns.items() if re.search(r"abi_type_for_impl::\{closure#\d+\}$", n)
+             and len(f.args) == 2 and re.sub(r"\s", "", f.args[1][1]) == "(AbiType,usize)" and re.sub(r"\s", "", f.ret or "") == "(AbiType,usize)"]
+    if not cands:
+        out.notes.append("L4: abi_type_for_impl has no (AbiType, usize) -> (AbiType, usize) flattening closure; nothing to decide")
+        return
+    OFF, POS = z3.BitVec("parent_span_offset", 64), z3.BitVec("nested_position", 64)
+    for f in cands:
+        oid = "L4.packed_flattening_inside_word"
+        t0 = time.time()
+        ex = eng.explorer(havoc_unknown=True, max_visits=2, max_seconds=60)
+
+        def body(ctx, f=f):
+            env_ty = f.args[0][1].strip()
+            # the captured parent offset may be held by value or by reference
+            cap = Ref(Cell(Int(OFF, 64), "offset"), ()) if _captures_by_ref(f) else Int(OFF, 64)
+            env = Agg("closure-env", {0: cap})
+            envv = Ref(Cell(env, "env"), (), True) if env_ty.startswith("&") else env
+            arg = Agg("(tuple)", {0: Lazy("AbiType", "ty"), 1: Int(POS, 64)})
+            r = ctx.run_fn(f, [envv, arg])
+            return r, ctx
+        try:
+            paths = ex.explore(body)
+        except Unsupported as e:
+            out.obligation(oid, "mirsmt", "inconclusive", time.time() - t0, witness=False, note=str(e))
+            out.inconc("%s: %s" % (oid, e))
+            continue
+        bad, seen = None, 0
+        pre = [z3.ULT(OFF, 256), z3.ULT(POS, 256)]
+        for p in paths:
+            s_ = z3.Solver()
+            for c_ in p.pc + pre:
+                s_.add(c_)
+            if p.kind == "panic":
+                if s_.check() == z3.sat:
+                    bad = ("panic", s_.model())
+                continue
+            if p.kind != "return":
+                continue
+            seen += 1
+            r = p.ret[0]
+            pos = p.ret[1].force(r.fields[1]).e
+            s_.add(z3.UGE(pos, 256))
+            if s_.check() == z3.sat:
+                bad = ("outside", s_.model())
+        dt = time.time() - t0
+        what = "flattening a nested packed type adds the parent span's offset to positions that are already bit positions in the word"
+        if bad is None and seen:
+            out.obligation(oid, "mirsmt", "holds", dt, witness=True, paths=seen)
+        elif bad is None:
+            out.obligation(oid, "mirsmt", "vacuous", dt, witness=False)
+            out.inconc("%s: no returning path" % oid)
+        else:
+            kind, m = bad
+            confirmed, rep = native.scenario(out, "layout_family_sorted", {"check": 2})
+            wit = "parent span at %d, nested entry at %d -> flattened to %d" % (ev(m, OFF), ev(m, POS), ev(m, OFF) + ev(m, POS))
+            if confirmed:
+                out.obligation(oid, "mirsmt", "violated", dt, witness=True, note="%s (%s)" % (what, wit), replay=rep)
+                out.violation(C.Violation(key="packed-flattening-leaves-the-word", what="%s: %s (%s)" % (oid, what, wit),
+                                          replay={"engine": "mirsmt", "native": rep}))
+            else:
+                out.obligation(oid, "mirsmt", "cex-not-reproduced", dt, witness=False, note=wit, replay=rep)
+                out.inconc("%s: %s, but no layout entry outside its slot was observed natively" % (oid, wit))
+
+
+def _captures_by_ref(f):
+    """does the closure body dereference its first upvar?  ((*_1).0: &usize) vs ((*_1).0: usize)"""
+    import re
+    for b in f.blocks.values():
+        for st in b.stmts:
+            if re.search(r"\(\(\*_1\)\.0: &", st) or re.search(r"\(_1\.0: &", st):
+                return True
+    return False
 
 
 class _Quiet:
